@@ -358,7 +358,9 @@ def indexing(S, n, t, batch, inter, alphabet):
     ntested = 0
     with S.mode():
         d = MultitaskMultivariateNormal(mean, cov_store, interleaved=inter)
+        pc_mark = len(CTX.pc)
         for e in exprs:
+            del CTX.pc[pc_mark:]  # path conditions of one index expression do not constrain the next
             idx = tuple(_mk(i) for i in e)
             lab = "d[%s]" % ", ".join(str(i) for i in e)
             # what the index means on the mean (numpy/torch semantics) — the reference
